@@ -22,7 +22,8 @@
 (*    (PT2) -> PKGO01 once per file and type;  plain -> un-annotated item  *)
 (*                                                                         *)
 (* L1: reported iff P # d and neither path(P) nor name(P) is in the union  *)
-(* of the lists.  Deviations: FirstLineOnly, NoNameMatch, NoDedup.         *)
+(* of the lists.  Deviations: FirstLineOnly, NoNameMatch, NoDedup,         *)
+(* NoUnalias (a type reference spelled through an alias is invisible).     *)
 (***************************************************************************)
 EXTENDS Integers, Sequences, FiniteSets, TLC, Json
 
@@ -37,6 +38,23 @@ Refs == {"callF", "funcValue", "methCall", "methValue", "typeLit", "typeVar", "t
          "typeLit2", "plain"}
 TypeRefs == {"typeLit", "typeVar", "typeField", "typeParam", "typeResult", "typeLit2"}
 Pkgs == {"d", "u", "v"}
+
+\* C13: spelled type references are encoded as "<ref>@<spelling>"; the verdict ignores the spelling
+Spells == {"alias", "alias3", "ptralias", "rename", "paren"}
+SpelledRefs == {"typeLit@alias", "typeLit@alias3", "typeLit@rename",
+                "typeVar@alias", "typeVar@alias3", "typeVar@rename", "typeVar@paren", "typeVar@ptralias",
+                "typeField@alias", "typeField@alias3", "typeField@rename", "typeField@paren", "typeField@ptralias",
+                "typeParam@alias", "typeParam@alias3", "typeParam@rename", "typeParam@paren", "typeParam@ptralias",
+                "typeResult@alias", "typeResult@alias3", "typeResult@rename", "typeResult@paren"}
+Base(r) == CASE r \in {"typeLit@alias", "typeLit@alias3", "typeLit@rename"} -> "typeLit"
+             [] r \in {"typeVar@alias", "typeVar@alias3", "typeVar@rename", "typeVar@paren", "typeVar@ptralias"} -> "typeVar"
+             [] r \in {"typeField@alias", "typeField@alias3", "typeField@rename", "typeField@paren", "typeField@ptralias"} -> "typeField"
+             [] r \in {"typeParam@alias", "typeParam@alias3", "typeParam@rename", "typeParam@paren", "typeParam@ptralias"} -> "typeParam"
+             [] r \in {"typeResult@alias", "typeResult@alias3", "typeResult@rename", "typeResult@paren"} -> "typeResult"
+             [] OTHER -> r
+ViaAlias(r) == r \in {"typeLit@alias", "typeLit@alias3", "typeVar@alias", "typeVar@alias3", "typeVar@ptralias", "typeField@alias",
+                      "typeField@alias3", "typeField@ptralias", "typeParam@alias", "typeParam@alias3", "typeParam@ptralias",
+                      "typeResult@alias", "typeResult@alias3"}
 
 PathOf(P) == CASE P = "d" -> "m/d" [] P = "u" -> "m/u" [] P = "v" -> "m/vv"
 NameOf(P) == P
@@ -56,16 +74,17 @@ Lines(al, P) ==
 
 Union(ls) == UNION {{ls[i][j] : j \in 1..Len(ls[i])} : i \in 1..Len(ls)}
 
-ShapeOf(r, al) == IF r = "typeLit2" THEN "bare" ELSE IF r = "plain" THEN "none" ELSE al
+ShapeOf(r0, al) == LET r == Base(r0) IN IF r = "typeLit2" THEN "bare" ELSE IF r = "plain" THEN "none" ELSE al
 
 Allowed(P, ls) == P = "d" \/ PathOf(P) \in Union(ls) \/ NameOf(P) \in Union(ls)
 
-CodeOf(r) == CASE r \in {"callF", "funcValue"} -> "PKGO02" [] r \in {"methCall", "methValue"} -> "PKGO03"
+CodeOf(r0) == LET r == Base(r0) IN
+             CASE r \in {"callF", "funcValue"} -> "PKGO02" [] r \in {"methCall", "methValue"} -> "PKGO03"
                [] r \in TypeRefs -> "PKGO01" [] OTHER -> "none"
 
 Cand(r, al, P) == IF ShapeOf(r, al) # "none" /\ CodeOf(r) # "none" /\ ~Allowed(P, Lines(ShapeOf(r, al), P)) THEN CodeOf(r) ELSE "none"
 
-TypeOf(r) == IF r = "typeLit2" THEN "PT2" ELSE "PT"
+TypeOf(r) == IF Base(r) = "typeLit2" THEN "PT2" ELSE "PT"
 
 Keys(p) == UNION {{<<f, i>> : i \in 1..Len(p.files[f])} : f \in 1..Len(p.files)}
 Reported(p, f, i) ==
@@ -80,6 +99,8 @@ SeqRefs == {"typeLit", "typeVar", "typeParam", "typeLit2", "callF", "methCall"}
 InitProg ==
   \/ /\ Mode = "single"
      /\ \E al \in Shapes, P \in Pkgs, r \in Refs : prog = [al |-> al, pkg |-> P, files |-> << <<r>> >>]
+  \/ /\ Mode = "spell"
+     /\ \E al \in {"bare", "name", "other"}, P \in {"u", "v"}, r \in SpelledRefs : prog = [al |-> al, pkg |-> P, files |-> << <<r>> >>]
   \/ /\ Mode = "seq2"
      /\ \E al \in {"bare", "name", "other", "two_in", "two_out"}, P \in Pkgs : \E r1 \in SeqRefs, r2 \in SeqRefs :
           \/ prog = [al |-> al, pkg |-> P, files |-> << <<r1, r2>> >>]
@@ -110,7 +131,8 @@ Visit ==
   /\ ph = "visit"
   /\ LET r == CurR
          sh == ShapeOf(r, prog.al)
-         code == IF sh # "none" /\ CodeOf(r) # "none" /\ ~IndexAllowed(prog.pkg, IndexLines(sh, prog.pkg)) THEN CodeOf(r) ELSE "none"
+         code == IF "NoUnalias" \in Deviations /\ ViaAlias(r) THEN "none"
+                 ELSE IF sh # "none" /\ CodeOf(r) # "none" /\ ~IndexAllowed(prog.pkg, IndexLines(sh, prog.pkg)) THEN CodeOf(r) ELSE "none"
      IN IF code = "none" THEN UNCHANGED <<reported, diags>>
         ELSE IF code = "PKGO01" /\ ~("NoDedup" \in Deviations)
           THEN IF TypeOf(r) \in reported THEN UNCHANGED <<reported, diags>>
